@@ -494,11 +494,12 @@ MACRO_ITEMS = [
     ('macros/src/parse/world.rs', 'pworld', [('trait', 'HasAttributeId'), ('struct', 'ParseEcsWorld'), ('struct', 'ParseArchetype'),
                                              ('struct', 'ParseComponent')]),
     ('macros/src/parse/attribute.rs', 'pattr', [('impl', 'HasAttributeId for ParseArchetype'), ('impl', 'HasAttributeId for ParseComponent')]),
-    ('macros/src/parse/cfg.rs', 'pcfg', [('struct', 'ParseCfgDecorated')]),
-    ('macros/src/parse/query.rs', 'pquery', [('struct', 'ParseQueryParam'), ('enum', 'ParseQueryParamType')]),
+    ('macros/src/parse/cfg.rs', 'pcfg', [('trait', 'HasCfgPredicates'), ('struct', 'ParseCfgDecorated')]),
+    ('macros/src/parse/world.rs', 'pworld', [('impl', 'HasCfgPredicates for ParseEcsWorld')]),
+    ('macros/src/parse/query.rs', 'pquery', [('struct', 'ParseQueryParam'), ('enum', 'ParseQueryParamType'), ('fn', 'get_cfg_predicates')]),
     ('macros/src/data.rs', 'data', [('struct', 'DataWorld'), ('struct', 'DataArchetype'), ('struct', 'DataComponent'),
                                     ('impl', 'DataWorld'), ('impl', 'DataArchetype'), ('fn', 'evaluate_cfgs'), ('fn', 'advance_attribute_id')]),
-    ('macros/src/generate/query.rs', 'query', [('fn', 'bind_query_params'), ('fn', 'bind_one_of')]),
+    ('macros/src/generate/query.rs', 'query', [('fn', 'is_cfg_enabled'), ('fn', 'bind_query_params'), ('fn', 'bind_one_of')]),
 ]
 
 
